@@ -504,6 +504,14 @@ func TestReplay(t *testing.T) {
 		rapid.MakeFuzz(seqProp("FuzzImmutableSequences"))(t, b)
 		return
 	}
+	if ev.ReplayTest(path) == "TestBuiltinTablesKeepContents" {
+		var bp btCase
+		if _, err := ev.LoadReplay(path, &bp); err != nil {
+			t.Fatalf("load %s: %v", path, err)
+		}
+		checkBuiltinTables(t, "TestBuiltinTablesKeepContents", &bp)
+		return
+	}
 	if ev.ReplayTest(path) == "TestFreezeCyclic" {
 		var cp cyclicPayload
 		if _, err := ev.LoadReplay(path, &cp); err != nil {
